@@ -272,8 +272,14 @@ func init() {
 				return globDepCase(c)
 			case 3:
 				return siblingTaggerCase(c)
+			case 4:
+				return siblingTaggerIdleCase(c)
 			}
 			w := Generate(c.Tape, tierProfile(profC10, c.Tier))
+			// (before the tag arguments: it changes path names)
+			if HideParams(c.Tape, w) {
+				c.Probe("gofunc-with-hidden-params")
+			}
 			AddTagArgs(c.Tape, w)
 			for i := range w.Nodes {
 				// launcher prefix (Process.Prepend): part of the command that is executed
@@ -773,6 +779,60 @@ func lazyTagCase(c *Case) Verdict {
 			}
 		}
 	}
+	return OK()
+}
+
+// siblingTaggerIdleCase: an out-port fanned out to a tagging component (whose
+// own output goes straight to the sink) and to an ordinary process, on an idle
+// machine (the clock advances only when nothing can run; commands last >= 1 ms):
+// the component has attached its tag - zero-time work, nothing downstream can
+// hold it up - long before the sibling task's command ends, so the record that
+// task writes at the end carries the tag, in its own Tags and under Upstream.
+// (Elsewhere the sibling may or may not see the tag: known findings F-C04-1 /
+// F-C12-1.)
+func siblingTaggerIdleCase(c *Case) Verdict {
+	t := c.Tape
+	w := &WF{Name: "wf", Sources: map[string]string{}, MaxTasks: 2 + t.Choose(simrt.StGen, 3, 0), Bufsize: bufsizeOf(t)}
+	e := Edge{srcNode(w, "src0", 1+t.Choose(simrt.StGen, 3, 0), ""), "out"}
+	if t.Choose(simrt.StGen, 2, 0) == 1 {
+		e = Edge{oneToOne(w, "pre", e), "o0"}
+	}
+	tg := addNode(w, Node{Name: "tagk", Kind: KMapToTags, TagKey: "kind",
+		Ins: []InSpec{{Name: "in", From: []Edge{e}}}, Outs: []OutSpec{{Name: "out"}}})
+	sl := oneToOne(w, "slow", e)
+	if t.Choose(simrt.StGen, 2, 0) == 1 {
+		oneToOne(w, "after", Edge{sl, "o0"})
+	}
+	c.Sample = "sibling of a tagger on an idle machine: " + sample(w)
+	c.Probe("sibling-of-tagger-idle-machine")
+	inc := RunInc(w, c.Tape, nil, 0, IncOpts{KillAt: -1, Strategy: strategyOf(c.Tape), Trace: c.Trace, NoEarlyTimers: true, MinDur: 1e6})
+	c.Absorb(inc)
+	if v, ok := inconclusiveEnd(inc); ok {
+		return v
+	}
+	if !completedOK(inc) {
+		return Skipped(Viol("no-completion", "", "%s", endDesc(inc)))
+	}
+	root := inc.Sim.FS.Root
+	for _, tk := range Eval(w).Tasks {
+		if tk.Proc != "slow" && tk.Proc != "after" {
+			continue
+		}
+		in := tk.Ins["a"].Path
+		for in != "" && strings.HasSuffix(in, ".slow.o0") {
+			in = strings.TrimSuffix(in, ".slow.o0")
+		}
+		want := tagValueFor(&w.Nodes[tg], in)
+		p := Abs(tk.Outs["o0"])
+		r, err := readAudit(root, p)
+		if err != nil {
+			return Viol("audit-unreadable", "", "%v", err)
+		}
+		if r.Tags["kind"] != want {
+			return Viol("audit-tags-lost", "idle-machine", "%s.audit.json: the tag kind=%s, attached to %s by a tagging component long before this task's command ended (idle machine), is missing from the record's own Tags %v", strings.TrimPrefix(p, "/work/"), want, in, r.Tags)
+		}
+	}
+	_ = tg
 	return OK()
 }
 
